@@ -34,9 +34,9 @@ claim("C02", "proof",
       "count), data payloads and size_bytes return exactly what the encoder placed (proved for the root level; any-depth "
       "versions are stated in CursorSpec.v and proved when CursorProofs.v lands). Correspondence: images from the extracted "
       "reference encoder (independent of the library's setters) decoded by /repo's generated code vs. model vs. values "
-      "computed directly from the encoder's block bytes. Translator theorems as for C01 (wrapper and size tables regenerated from /repo). The quick tier builds with g++ (C++11, C++20) and clang++ (C++14); set fields are also read through their choice getters (visit_set).",
+      "computed directly from the encoder's block bytes. Translator theorems as for C01 (wrapper and size tables regenerated from /repo). The quick tier builds with g++ (C++11, C++20) and clang++ (C++14); set fields are also read through their choice getters (visit_set). SOURCE TRANSLATOR (harness/srcexprs.py -> coq/SrcExprs.v, regenerated on every run from clang's typed AST of /repo's sbepp.hpp): the byteswap(uint16/32/64) overloads as the compiler sees them reverse exactly the bytes of their own width, hence the memcpy path decodes the schema byte order (C02_source_byteswap_decodes).",
       TB + " Constant evaluation and all standards x compilers only in the thorough tier / partially.",
-      "Coq proof (decode/encode round trip, navigation by induction over the value tree) + differential correspondence")
+      "Coq proof (decode/encode round trip, navigation by induction over the value tree) + differential correspondence + expression-level source translator (clang AST -> Coq terms, theorems about the regenerated terms)")
 claim("C03", "proof",
       "Same navigation theorems as C02 (Properties_C03.v): in Msg.enc_message every level instance carries a block of arbitrary "
       "length (the wire blockLength), so level_end/groups_end/size_bytes/field/group/data location theorems hold for every "
@@ -79,8 +79,8 @@ claim("C14", "proof",
       "three eos modes, constant-evaluation static_asserts.",
       TB, "Coq proof (list functions) + exhaustive small-scope differential correspondence")
 claim("C15", "proof",
-      "Coq theorems (Properties_C15.v) prove for every width 8/16/32/64, every index inside the width and every underlying value that the model of bitset_base get_bit/set_bit (written through CInt.v, i.e. with C++ integral promotion and shift UB) reads exactly bit n and changes exactly bit n; raw value/equality/visit corollaries. Tied to /repo by running the extracted model and the real bitset_base<T> plus sbeppc-generated set classes (named, by-tag, visit, ==) on the same cases (8/16 bit exhaustive values, patterns for 32/64), under g++ C++11/17(UBSan)/20 and as static_asserts (constant evaluation). The harness schema also has sparse sets with gaps and out-of-order bit indices, and both the tag-based visit and the name-based visit_set are compared. The setter's return value is checked to be the very object it was called on (chaining).",
-      TB, "Coq proof (Z.testbit algebra over a CInt model) + differential correspondence vs extracted model")
+      "Coq theorems (Properties_C15.v) prove for every width 8/16/32/64, every index inside the width and every underlying value that the model of bitset_base get_bit/set_bit (written through CInt.v, i.e. with C++ integral promotion and shift UB) reads exactly bit n and changes exactly bit n; raw value/equality/visit corollaries. Tied to /repo by running the extracted model and the real bitset_base<T> plus sbeppc-generated set classes (named, by-tag, visit, ==) on the same cases (8/16 bit exhaustive values, patterns for 32/64), under g++ C++11/17(UBSan)/20 and as static_asserts (constant evaluation). The harness schema also has sparse sets with gaps and out-of-order bit indices, and both the tag-based visit and the name-based visit_set are compared. The setter's return value is checked to be the very object it was called on (chaining). SOURCE TRANSLATOR (harness/srcexprs.py -> coq/SrcExprs.v, regenerated on every run from clang's typed AST of /repo's bitset_base<T>::operator()(get_bit_tag / set_bit_tag) for T = uint8..uint64): the regenerated expressions ARE the hand-written model for all arguments (C15_source_is_the_model), the stored value has exactly bit n changed and the getter reads exactly its own bit (C15_source_bit_independent, C15_source_get_bit_is_testbit).",
+      TB, "Coq proof (Z.testbit algebra over a CInt model) + differential correspondence vs extracted model + expression-level source translator (clang AST -> Coq terms, theorems about the regenerated terms)")
 claim("C19", "proof",
       "Theorems (Properties_C19.v): a complete visit of the image of any well-formed value tree reports exactly ev_level "
       "(every non-constant member and every entry once, in schema order, at the random-access address, cursor at the end); "
@@ -123,15 +123,15 @@ claim("C12", "proof",
       "numVarDataFields for 4 pairs, blockLength at offset 0 / numInGroup at offset 8 for 2, numInGroup declared before "
       "blockLength for 2; flat and nested groups), the case lines carry the composite (types, shape, size, member offsets) "
       "and the header bytes built from the schema's member offsets; iterator expressions to depth 3 "
-      "over boundary sizes/block lengths, checks on and off, UBSan build, for every composite.",
+      "over boundary sizes/block lengths, checks on and off, UBSan build, for every composite. SOURCE TRANSLATOR (harness/srcexprs.py -> coq/SrcExprs.v, regenerated on every run from clang's typed AST of /repo's random_access_iterator instantiated at all 16 header type pairs): operator+=, operator-(rhs), operator++ (with its expanded SBEPP_SIZE_CHECK) and operator-- are proved equal to GroupIter.it_add_assign / it_diff / it_inc / it_dec for all arguments; += moves the pointer by exactly n x blockLength and the index by n; ++ reports exactly when the entry block leaves [ptr, end) (C12_source_* theorems, 7).",
       TB + " difference_type is pinned by the existing tests: distances above max/2 are outside the theorems' guards.",
-      "Coq proof (iterator algebra through a C++ integer model) + differential correspondence")
+      "Coq proof (iterator algebra through a C++ integer model) + differential correspondence + expression-level source translator (clang AST -> Coq terms, theorems about the regenerated terms)")
 claim("C13", "proof",
       "6 theorems (Properties_C13.v): every dynamic_array_ref operation refines the std::vector operation (contents, size, "
       "returned position) for all four length types and both byte orders under vector validity; frame (no byte outside "
       "prefix+max(old,new) payload changes); no spurious assertion; erase up to end(); lifted to arbitrary op sequences by "
       "induction. Correspondence: exhaustive sequences to depth 3 from every small state, random sequences of length 200, "
-      "4 length types x 2 byte orders x char/uint8/int8, asserts on/off. Also: value arguments that alias an element of the view itself (push_back/insert/resize), and short views whose end lies inside the length prefix (every call must end in the handler). Genuinely single-pass ranges and iterators (all iterators share one read position) feed assign_range / insert.",
+      "4 length types x 2 byte orders x char/uint8/int8, asserts on/off. Also: value arguments that alias an element of the view itself (push_back/insert/resize), and short views whose end lies inside the length prefix (every call must end in the handler). Genuinely single-pass ranges and iterators (all iterators share one read position) feed assign_range / insert. Constant evaluation: generated C++20 units run call sequences over the constexpr-capable overloads inside constexpr functions (g++ and clang++) and static_assert the model's final buffer and returned iterators.",
       TB, "Coq refinement proof (concrete buffer -> abstract vector) + exhaustive small-scope differential correspondence")
 claim("C16", "proof",
       "16 theorems (Properties_C16.v): default/nullopt is null, has_value/value_or/in_range, all six comparison operators "
@@ -179,11 +179,11 @@ claim("C10", "proof",
       "outcome (value or handler) of every op on images truncated around every header/dimension/length/field boundary and "
       "at sampled lengths, the view ending on a PROT_NONE page, must be the outcome of the checked model; the read-based "
       "Msg.v expectation is kept as a cross-check; never a fault; complete image => no handler; plus hostile <data> "
-      "lengths steering the next view past the end. Hostile (smaller) wire blockLength values under plain-cursor traversal of truncated buffers are part of the sweep.",
+      "lengths steering the next view past the end. Hostile (smaller) wire blockLength values under plain-cursor traversal of truncated buffers are part of the sweep. SOURCE TRANSLATOR (harness/srcexprs.py -> coq/SrcExprs.v, regenerated on every run from clang's typed AST of /repo's sbepp.hpp): detail::is_within_size and the SBEPP_SIZE_CHECK macro as clang expands it are proved equal to the model's size_check for all pointers/offsets/sizes, and the handler stays silent exactly when [begin+offset, begin+offset+size) lies inside [begin, end), wherever the view starts (C10_source_size_check_macro, C10_source_size_check_is_the_model, C10_source_is_within_size).",
       TB + " Partial: that CheckedAccess.v transcribes sbepp.hpp's checks is tied by the sweep (exact agreement of "
       "value/handler at every truncation point), not proved against the C++ text; cursor traversal keeps the read-based "
       "expectation; container mutators are covered by C13/C14.",
-      "Coq proof about the size-check guard and the checked random-access API + fault enumeration (truncation sweep under guard pages)")
+      "Coq proof about the size-check guard and the checked random-access API + fault enumeration (truncation sweep under guard pages) + expression-level source translator (clang AST -> Coq terms, theorems about the regenerated terms)")
 
 claim("C07", "proof",
       "PARTIAL by nature (no model can express 'g++ accepts this text'). 11 theorems (Properties_C07.v): rendered integer "
